@@ -29,6 +29,10 @@ func c04case(c GCase, a *run.Acc, variant int) {
 		NoSentence:  variant&16 == 16,
 	}
 	o.Before = c.Before()
+	o.Transform = run.Hash(c.Key())%4 == 0
+	if o.Transform {
+		a.Count("cases parsed with transformation switched on", 1)
+	}
 	lrFree := !g.LeftRecursive()
 	if variant&32 == 32 && lrFree {
 		o.NoMemo = true
